@@ -33,7 +33,7 @@ from vf.ref import c21_socks5 as ref
 PROPERTY = "C21"
 LEVEL = "exploration"
 ENGINE = "sansio"
-BUDGET = {"quick": (1500, 15), "thorough": (40000, 240)}
+BUDGET = {"quick": (1500, 12), "thorough": (40000, 240)}
 WORKERS = {"quick": 4, "thorough": 16}
 REQUIRED = ["totality", "accept", "accept.trailing", "connect_fail", "reject.greet", "reject.auth", "reject.request", "incomplete", "segmentation", "auth_hook"]
 TECHNIQUE = "runtime monitoring: sans-io segmentation/schedule sweep of the real Socks5Proxy layer + independent RFC 1928/1929 reference reader"
